@@ -3,6 +3,7 @@ import OtelVerif.Lemmas.C04Term
 import OtelVerif.Lemmas.C04Pinned
 import OtelVerif.Lemmas.C04Bound
 import OtelVerif.Lemmas.C04Done
+import OtelVerif.Lemmas.C04Cover
 /-!
 # C04 — exporter batching conserves telemetry, keeps identity, respects size limits
 
@@ -310,6 +311,32 @@ theorem C04_done_once (c : BCfg) (ls : List BLabel) (hnd : (consumedIds ls).Nodu
     rw [hd] at hacc
     simp only [List.count_nil, hl, hid, if_true] at hacc
     omega
+
+theorem cinv_init (c : BCfg) : CInv c {} := ⟨by intro b hb; simp [BState.slots] at hb, by intro b hb; cases hb⟩
+
+/-- **Done(r) covers every part of r** — for every history whose requests carry units tagged with their own id (validated
+`min_size ≤ max_size` or no `max_size`):
+1. every pending or in-flight batch that contains an item of request `r` holds a `Done` of `r` — in particular the FIRST
+   result of a merge into the parked batch, decided with the item count the parked batch had BEFORE the merge;
+2. hence once the callback of `r` has fired, no pending or in-flight batch contains an item of `r`: it fired only after
+   every batch containing part of `r` had finished, and every failure of such a batch reached it (`onDone` is called on every
+   `Done` the finished batch holds, `C04_done_combines_errors`). -/
+theorem C04_done_covers_all_parts (c : BCfg) (hv : c.max = 0 ∨ c.min ≤ c.max) (ls : List BLabel)
+    (hnd : (consumedIds ls).Nodup) (ht : Tagged ls) :
+    (∀ b ∈ (brun c {} ls).1.slots, ∀ u ∈ b.1, 0 < u.2 → ∃ d ∈ b.2, tgt (brun c {} ls).1.refs d = some u.1) ∧
+    (∀ id, firedCount (brun c {} ls).2 id = 1 → ∀ b ∈ (brun c {} ls).1.slots, ∀ u ∈ b.1, 0 < u.2 → u.1 ≠ id) := by
+  have hcov := brun_cover c hv ls {} [] [] sinv_init (cinv_init c) ht hnd (by simp)
+  refine ⟨hcov.1, ?_⟩
+  intro id hf b hb u hu hp hid
+  obtain ⟨d, hd, hdt⟩ := hcov.1 b hb u hu hp
+  have := (C04_done_once c ls hnd).2.2.1 id hf d (slots_dones_mem _ b hb d hd)
+  exact this (by rw [hdt, hid])
+
+/-- non-vacuity (the round-2 seed shape): min 5, max 10, 4 items parked, 16 more → two full batches 10 + 10; the first holds
+items of BOTH requests and both `Done`s (request 2's through a ref-count of 2), so request 2 waits for it -/
+example :
+    ((brun ⟨5, 10⟩ {} [.consume 1 (List.replicate 4 (1, 1)), .consume 2 (List.replicate 16 (2, 1))]).1.slots.map
+      (fun b => ((b.1.map (·.1)).eraseDups, b.2))) = [([1, 2], [.base 1, .ref 0]), ([2], [.ref 0])] := by decide
 
 /-- the ref-counted `Done` of a request split over `n+1` flushes, fed the outcomes of those flushes one by one -/
 def feedRef (refs : List RefCount) : List Err → List RefCount × List (Nat × Err)
